@@ -1,7 +1,7 @@
 """C05 - device memory accounting returns to zero and tracks live allocations."""
 from vp.core import Group
 from vp import memunit
-from recipes import C01
+from recipes import C01, C03
 from vp import replay_C05
 
 LEVEL = 'proof'
@@ -12,7 +12,8 @@ EXPLANATION = ('Ghost definition accounted(b) = b.isWrapped ? 0 : b.size.  The i
                'serial::device::malloc, serial::buffer::malloc/wrapMemory inlined, device::wrapMemory, and the '
                'destructor chain serial::buffer::~buffer + ~modeBuffer_t, for every entry count, element size, '
                'source pointer and use_host_pointer/own_host_pointer combination (loop-free: complete).  The pool '
-               'functions\' accounting lines are checked in C04\'s translation unit.')
+               'functions\' accounting (backing buffers created and released by reserve/resize/shrinkToFit/setAlignment) is '
+               'checked on the pool unit of C03/C04 (bounded groups pool/...).')
 TRUSTED = ['cbmc 6.11.0 C++ front end and SAT back end',
            'flattened class skeletons (vp/memunit.py): json as consistent lookup, dtype_t as (bytes, registered), '
            'sys::malloc/free as counters, device::memoryProperties as identity',
@@ -21,7 +22,7 @@ ASSUMPTIONS = ['nested delete-expressions are recorded (each destructor is verif
                'entries * sizeof(element) does not overflow 63 bits (|entries| < 2^40, element size <= 64)',
                'virtual calls resolve to the Serial-mode classes',
                'history-level statement follows by induction from the per-function deltas (not replayed as a whole)']
-NOT_REACHED = ['clone() (malloc + copyFrom)', 'memoryPool growth/shrink accounting (C04 unit)', 'detach() (excluded by the property)',
+NOT_REACHED = ['clone() (malloc + copyFrom)', 'detach() (excluded by the property)',
                'other backends']
 
 HARNESS = r'''
@@ -154,4 +155,7 @@ def build(ctx):
                                 functions=fns + gcfiles, canary='CANARY', canary_label='canary', strength='proof',
                                 object_bits=10, timeout=900, ignore=r'^verif_alive: \[pointer_primitives\]',
                                 param='element size %d' % d, replay=replay_C05.replay))
+    # memory pools that grow, shrink and re-align: the accounting obligations of the pool unit (bounded, see C03/C04)
+    groups += C03.build(ctx, prop='C05', only_ops=['reserve', 'resize', 'shrinkToFit', 'setAlignment'],
+                        only_aligns=[(128, 8)] if ctx.tier == 'quick' else None)
     return groups
